@@ -207,6 +207,11 @@ int16_t COLssSwitchStateSelective_Serial(CO_LSS *lss, CO_IF_FRM *frm)
         return -1;
     }
 
+    /* the sequence ends with this frame: a following selection starts
+     * with the vendor-id again
+     */
+    lss->Step = CO_LSS_SEL_VENDOR;
+
     select = CO_GET_LONG(frm, 1);
     err    = CODictRdLong(&lss->Node->Dict, CO_DEV(0x1018, 4), &ident);
     if ((err == CO_ERR_NONE) && (select == ident)) {
@@ -271,8 +276,9 @@ int16_t COLssConfigureBitTiming(CO_LSS *lss, CO_IF_FRM *frm)
     baudId = CO_GET_BYTE(frm, 2);
     if (table == 0) {
         if (baudId < CO_LSS_MAX_BAUD) {
-            lss->CfgBaudrate = CO_LssBaudTbl[baudId];
-            if (lss->CfgBaudrate != 0) {
+            /* a refused index keeps the pending bit rate */
+            if (CO_LssBaudTbl[baudId] != 0) {
+                lss->CfgBaudrate = CO_LssBaudTbl[baudId];
                 error_code = 0;
             }
         }
@@ -477,6 +483,9 @@ int16_t COLssIdentifyRemoteSlave_SerMax(CO_LSS *lss, CO_IF_FRM *frm)
         lss->Step = CO_LSS_REM_VENDOR;
         return -1;
     }
+
+    /* the sequence ends with this frame */
+    lss->Step = CO_LSS_REM_VENDOR;
 
     select = CO_GET_LONG(frm, 1);
     err    = CODictRdLong(&lss->Node->Dict, CO_DEV(0x1018, 4), &ident);
